@@ -320,7 +320,7 @@ class Run:
         if depth > self.limit + 2:
             self.done.append((st, calls))
             return
-        E.call(ex, st, r"^connection::<impl at src/connection\.rs:84[^>]*>::poll_recv_data$", [Ref(st.world["rs"]), Ref(Cell(Obj("Context")))])
+        E.call(ex, st, r"^connection::<impl[^>]*>::poll_recv_data$", [Ref(st.world["rs"]), Ref(Cell(Obj("Context")))])
         for s2, ret in E.collect(ex, st):
             k = ret_kind(ex, ret)
             c2 = calls + [("recv_data", k)]
@@ -336,7 +336,7 @@ class Run:
 
     def recv_trailers(self, st, calls, depth):
         ex = self.ex
-        E.call(ex, st, r"^connection::<impl at src/connection\.rs:84[^>]*>::poll_recv_trailers$", [Ref(st.world["rs"]), Ref(Cell(Obj("Context")))])
+        E.call(ex, st, r"^connection::<impl[^>]*>::poll_recv_trailers$", [Ref(st.world["rs"]), Ref(Cell(Obj("Context")))])
         for s2, ret in E.collect(ex, st):
             k = ret_kind(ex, ret)
             c2 = calls + [("recv_trailers", k)]
